@@ -441,7 +441,11 @@ Take(o, ln, extra) ==
   LET post   == StateOf(ln)
       checks == OpChecks(cfg, st, post, ln) \cup extra
       bad    == {t \in checks : t[3] = 0}
+      shp(s0, c) == IF s0[c].p THEN <<Len(s0[c].e), s0[c].cap, StN(s0[c]) > 0>> ELSE <<0, NOf(cfg, c), FALSE>>
+      stepOK(c) == ~post[c].p \/ cfg.max < NOf(cfg, c)
+                   \/ StepClosed(NOf(cfg, c), cfg.max, StepClass(o.op), shp(st, c)[1], shp(st, c)[2], shp(st, c)[3], shp(post, c)[1], shp(post, c)[2], shp(post, c)[3])
   IN /\ Assert(bad = {}, <<"policy / L2 violates the contract", o, ln.k, bad>>)
+     /\ Assert(stepOK("A") /\ stepOK("B"), <<"a transition is not a step of ShapeInd (spec/ShapeRel.tla)", o, ln.k>>)
      /\ PrintT(<<"S", hist, OpTuple(o), ln.out>>)
      /\ st' = Norm(post)
      /\ hist' = Append(hist, OpTuple(o))
